@@ -5,6 +5,7 @@ package pub
 import (
 	"fmt"
 	"math/rand"
+	"net/url"
 	"servitor/client"
 	"servitor/verifkit"
 	"servitor/verifsim"
@@ -21,8 +22,8 @@ import (
 	query of the URL it must be for; T_Request.tla judges the bytes.
 */
 
-var verifPathSegs = []string{"a", "b c", "x%y", "é", `"q"`, "<t>", "a;b", "p=1&q", "~u", "\r\nX-Evil: 1", "\n", "\x00", "?", "#h", "\t", "日本", "%0d%0a", " ", "HTTP/1.0", "a b HTTP/1.1\r\nHost: evil"}
-var verifQueryParts = []string{"a=1", "q=a b", "x=%", "r=\r\nX-Evil: 1", "k=é", "z=?", "f=#", " ", "a b HTTP/1.1\r\n\r\nGET /second HTTP/1.0", "%0d%0a", "+", "u=https://o.example/?a=b&c=d"}
+var verifPathSegs = []string{"..", ".", "", "x/../y", "a", "b c", "x%y", "é", `"q"`, "<t>", "a;b", "p=1&q", "~u", "\r\nX-Evil: 1", "\n", "\x00", "?", "#h", "\t", "日本", "%0d%0a", " ", "HTTP/1.0", "a b HTTP/1.1\r\nHost: evil"}
+var verifQueryParts = []string{"filter={host}", "{accept}", "t={target}&h={host}", "a=1", "q=a b", "x=%", "r=\r\nX-Evil: 1", "k=é", "z=?", "f=#", " ", "a b HTTP/1.1\r\n\r\nGET /second HTTP/1.0", "%0d%0a", "+", "u=https://o.example/?a=b&c=d"}
 
 const verifHex = "0123456789ABCDEF"
 
@@ -90,6 +91,23 @@ func verifHostileURL(rng *rand.Rand, h *verifsim.Host, tag string) verifURL {
 		typed += "#" + []string{"frag", "a b", "x%0D%0AEvil:1"}[rng.Intn(3)]
 	}
 	return verifURL{typed, path, query}
+}
+
+/* An address found in a Location header or in a document is a reference that is resolved against the address it was
+   found under; resolution (RFC 3986 5.2) removes dot segments.  What must arrive is the resolved address - computed
+   here with net/url, independently of the program.  An address that is typed is not resolved: it arrives as written. */
+func verifResolved(base string, u verifURL) verifURL {
+	b, err1 := url.Parse(base)
+	r, err2 := url.Parse(u.typed)
+	if err1 != nil || err2 != nil {
+		return u
+	}
+	resolved := b.ResolveReference(r)
+	query, err := url.PathUnescape(resolved.RawQuery)
+	if err != nil {
+		query = u.query
+	}
+	return verifURL{typed: u.typed, path: resolved.Path, query: query}
 }
 
 /* concurrent fetches (as collection preloading does): every connection must still carry
@@ -215,6 +233,7 @@ func TestVerifRequests(t *testing.T) {
 	defer sim.Cleanup()
 	rng := verifkit.Rand()
 	h1, h2 := sim.Host("h1"), sim.Host("h2")
+	h1p := sim.HostLike("h1_p", "h1")
 	defer verifConcurrentRequests(out, sim, in.Rounds)
 	defer verifDefaultPort(out, sim, rng)
 	defer verifRepeatVisits(out, sim)
@@ -228,7 +247,7 @@ func TestVerifRequests(t *testing.T) {
 		before := sim.ConnCount()
 		expect := []verifURL{}
 		hosts := []*verifsim.Host{}
-		mode := rng.Intn(6)
+		mode := rng.Intn(7)
 		desc := ""
 		accept := verifsim.AcceptActivity
 		noconn := false
@@ -256,7 +275,7 @@ func TestVerifRequests(t *testing.T) {
 			u := verifHostileURL(rng, h2, tag)
 			desc = "Location: " + u.typed
 			h1.Set("/r"+tag, &verifsim.Route{Raw: []byte("HTTP/1.1 302 Found\r\nLocation: " + u.typed + "\r\n\r\n")})
-			expect = append(expect, verifURL{path: "/r" + tag}, u)
+			expect = append(expect, verifURL{path: "/r" + tag}, verifResolved(h1.URL("/r"+tag), u))
 			hosts = append(hosts, h1, h2)
 			verifkit.Try(func() { FetchUserInput(h1.URL("/r" + tag)) })
 		case 2: /* reference inside a document */
@@ -264,7 +283,7 @@ func TestVerifRequests(t *testing.T) {
 			desc = "inReplyTo: " + u.typed
 			quoted := strings.NewReplacer(`\`, `\\`, `"`, `\"`).Replace(u.typed)
 			h1.Set("/d"+tag, note(h1, "/d"+tag, `,"inReplyTo":"`+quoted+`"`))
-			expect = append(expect, verifURL{path: "/d" + tag}, u)
+			expect = append(expect, verifURL{path: "/d" + tag}, verifResolved(h1.URL("/d"+tag), u))
 			hosts = append(hosts, h1, h2)
 			verifkit.Try(func() { FetchUserInput(h1.URL("/d" + tag)) })
 		case 3: /* webfinger handle */
@@ -289,6 +308,19 @@ func TestVerifRequests(t *testing.T) {
 				verifkit.Try(func() { client.FetchUnknown(h2.URL("/r"+tag), nil) })
 				expect, hosts, noconn = append(expect, verifURL{path: "/r" + tag}), append(hosts, h2), false
 			}
+		case 6: /* two services on one host name (same address, different ports), one after the other */
+			first, second := verifHostileURL(rng, h1, tag+"a"), verifHostileURL(rng, h1p, tag+"b")
+			if rng.Intn(2) == 0 {
+				first, second = verifHostileURL(rng, h1p, tag+"a"), verifHostileURL(rng, h1, tag+"b")
+				hosts = append(hosts, h1p, h1)
+			} else {
+				hosts = append(hosts, h1, h1p)
+			}
+			desc = first.typed + " then " + second.typed
+			expect = append(expect, first, second)
+			verifkit.Try(func() { FetchUserInput(first.typed) })
+			sim.Quiesce(time.Second)
+			verifkit.Try(func() { FetchUserInput(second.typed) })
 		case 5: /* webfinger handle with a hostile domain part */
 			domain := []string{h1.Addr + "/evil?x=", h1.Addr + "\r\nX-Evil: 1", "user@" + h1.Addr, h1.Addr + " ", h1.Addr + "#f"}[rng.Intn(5)]
 			desc = "@a@" + domain
@@ -305,6 +337,10 @@ func TestVerifRequests(t *testing.T) {
 		for k, c := range conns {
 			if k < len(expect) {
 				out.Emit(verifsim.ConnEvent(c, hosts[k].Addr, accept, expect[k].path, expect[k].query))
+				if c.Host != hosts[k].Name {
+					/* the request went to another host or port than the one its URL names */
+					out.Emit(verifkit.M{"ev": "noconn", "conns": 1})
+				}
 			} else {
 				/* more connections than the case can explain */
 				out.Emit(verifkit.M{"ev": "noconn", "conns": len(conns) - len(expect)})
